@@ -1,20 +1,32 @@
 PROPS["C20"] = {
     "runs": [{"cmd": "c20.builder", "quick": 3000, "thorough": 60000, "thorough_seeds": 2},
-             {"cmd": "c20.events", "quick": 600, "thorough": 8000, "thorough_seeds": 2, "oracle_only": True}],
+             {"cmd": "c20.events", "quick": 600, "thorough": 8000, "thorough_seeds": 2, "oracle_only": True},
+             {"cmd": "c20.gen", "quick": 40, "thorough": 500, "thorough_seeds": 2}],
     "nontrivial": lambda c: c["input"].count("(") >= 4,
     "rule": "c20.builder: random well-nested interval families over texts of 1..24 bytes (zero-length nodes, shared boundaries, independent subtrees interleaved so that earlier events may lie to the right), "
             "20% arbitrary event lists and 10% families with one corrupted range, driven into builder.addNode of parsers/tm/ast and parsers/js/ast (both instances of go_ast_parse.go.tmpl); "
             "c20.events: the listener callbacks of the shipped tm, js, json and test parsers on their own grammar/sample texts and on mutated (deleted, inserted, swapped, truncated) texts, with error handlers that continue; "
-            "the event streams of real tm/js parses are also fed to the builder (c20.build cases)",
+            "the event streams of real tm/js parses are also fed to the builder (c20.build cases); "
+            "c20.gen: random event-based grammars generated and built from the tree under test: fixWhitespace in 4 of 5 (the others report regular tokens only, nothing skipped), "
+            "an injected (space) comment '%inject comment -> Comment;' in most, optionally an injected line comment, invalid_token, whitespace and regular tokens, optimizeTables, tokenStream = true in a quarter (generated stream.go instead of parser.go's own pending list), "
+            "rules with nullable tails ('x'?, 'x'*, N?, N*, nullable nonterminals), optional parts, inline lists with and without separators, state markers (.m0 .. .m3) at every position including the end of a rule and behind a nullable tail, "
+            "mid-rule / whole-rule / nonterminal-level arrows and arrows on empty rules, error rules ('error', 'error' x, x 'error', x 'error' y) in a third; per grammar 40 inputs: sentences of random derivations with blanks, newlines, "
+            "comments and line comments sprinkled between any two tokens (before the first, after the last, several in a row, or none at all), and broken inputs (derivations through error rules, deleted / inserted / replaced tokens, "
+            "invalid characters and unterminated comments next to comments), error handlers that continue or stop after the first or second error; every listener callback is recorded in report order; "
+            "half of the grammars are generated a second time with eventFields/eventAST and the stream is driven into the GENERATED builder.addNode (otherwise into the tm instance); in c20.events every second input is parsed with one Parser per target that was initialised once; seeds with comments before and inside lookahead regions (js) and right before a syntax error (json, test)",
     "modelled": "gen/templates/go_ast_parse.go.tmpl builder.addNode (scan from the top while offset >= node offset, `end` moves once for every scanned entry starting at or after the end offset, three splice cases, parent/next/firstChild links) as Gram/TreeBuilder.v add_node. "
-                "Not modelled: the producers (parse loop with recovery, token reporting, js hand-written loop); their streams are judged, not predicted",
+                "Not modelled: the producers (parse loop with recovery, pending-token flushing of parser.go / stream.go, js hand-written loop); their streams are judged, not predicted "
+                "(grammar/gen.go HasTrailingNulls, go_parser.go.tmpl fixTrailingWS / reportRange / flush / recoverFromError and go_stream.go.tmpl flush run inside the generated parsers of c20.gen)",
     "partial": "builder half: universal theorem. Producer half: universal theorem for the recovery-free fixWhitespace parse loop (C20_parser_events_are_well_nested, all machines/inputs/outcomes, under the C02 tree well-formedness and laminar reports); "
-               "with error recovery, injected tokens and the hand-written js loop the stream is monitored on the shipped parsers, not proved",
+               "with error recovery, injected (reported) tokens and the hand-written js loop the stream is monitored, not proved: on the shipped tm/js/json/test parsers (c20.events) and on generated parsers of random grammars with injected skipped tokens, "
+               "state markers, nullable tails and error rules (c20.gen)",
     "level_text": "Coq theorem C20_builder_correct: for EVERY event stream whose nodes are pairwise disjoint or nested with containers reported after their contents, builder.addNode yields a forest with exactly the reported nodes, each child inside its parent, siblings in source order and disjoint (hence attached to its smallest container). "
                   "The model is compared tree for tree with the builders of parsers/tm/ast and parsers/js/ast on thousands of random streams (well-nested, corrupted and arbitrary), and the implementation's trees are judged by the extracted wf_forest/multiset oracle. "
                   "Coq theorem C20_parser_events_are_well_nested: for EVERY machine, event table with laminar reports (inner arrows first, nested_table), input of ordered non-empty tokens and fuel, the events the fixWhitespace parse loop (Gram/Events.v xrun, no recovery) has emitted when it stops -- accepted or not -- satisfy ok_events and in_input, provided the trees on the final stack are well formed (C02's wf_tree) and end-of-input leaves are stack entries of their own; "
                   "C20_parser_and_builder composes it with the builder theorem (the parser's stream builds a well-formed forest with exactly the reported nodes). "
-                  "The first half of the property (nodes inside the input, disjoint or nested, containers last) is evaluated on the real listener callbacks of the shipped tm, js, json and test parsers on valid and broken inputs.",
+                  "The first half of the property (nodes inside the input, disjoint or nested, containers last) is evaluated on the real listener callbacks of the shipped tm, js, json and test parsers on valid and broken inputs, "
+                  "and on the callbacks of parsers GENERATED from random grammars that report skipped tokens (injected comments, invalid tokens), with state markers, nullable tails, lists and error recovery (c20.gen); "
+                  "their streams are also driven into the generated AST builder and compared with the model forest.",
     "level_note": "Trusted: Coq kernel, extraction, glue; hooks parsers/{tm,js}/ast/verif_hooks.go (drive addNode, dump the stack). Range-based nesting: a zero-length node at the start of a following sibling is inside that sibling (the statement's notion of container).",
     "technique": "Coq proof over a Gallina model of addNode + extracted-model differential correspondence + proved-sound forest oracle; event-stream monitor on shipped parsers",
     "assumptions": [],
